@@ -176,6 +176,8 @@ def obligations(tier):
             if tier == "quick" and rname.startswith(("Return", "Clear", "Change", "Restart")) and rname not in DIAG_QUICK:
                 continue
             qs = qq if tier == "quick" else qt
+            if tier == "quick" and framing == "ascii" and rname in ("ReadHoldingRegisters", "ReadCoils"):
+                qs = qs + [qt[-1]]          # ASCII doubles the predicted size: keep the spec maximum in the quick tier
             # one obligation per quantity for the small sweeps (parallel workers); the full thorough sweeps in chunks
             chunks = [[q] for q in qs] if len(qs) <= 12 else [qs[i:i + 25] for i in range(0, len(qs), 25)]
             for ci, chunk in enumerate(chunks):
